@@ -32,7 +32,7 @@ def static_shape(ctx, rr):
                 for m in x.body:
                     if isinstance(m, ast.FunctionDef) and m.name in ('__getattr__', '__getattribute__', '__setattr__'):
                         problems.append('%s:%d %s.%s defined' % (path, m.lineno, x.name, m.name))
-            if isinstance(x, ast.FunctionDef) and x.decorator_list:
+            if isinstance(x, ast.FunctionDef) and [d for d in x.decorator_list if not (isinstance(d, ast.Name) and d.id == 'staticmethod')]:
                 problems.append('%s:%d decorated function %s' % (path, x.lineno, x.name))
             if isinstance(x, ast.Attribute) and x.attr == '__dict__' and isinstance(x.ctx, (ast.Load, ast.Store)):
                 problems.append('%s:%d __dict__ access' % (path, x.lineno))
